@@ -100,6 +100,8 @@ where
     /// This method populates the roadmap by sampling states and connecting them until the
     /// specified timeout is reached.
     pub fn construct_roadmap(&mut self) -> Result<(), PlanningError> {
+        #[cfg(feature = "verif")]
+        use crate::verif::Instant;
         let pd = self
             .problem_def
             .as_ref()
@@ -234,6 +236,8 @@ where
     }
 
     fn solve(&mut self, timeout: Duration) -> Result<Path<S>, PlanningError> {
+        #[cfg(feature = "verif")]
+        use crate::verif::Instant;
         // Ensure setup has been called.
         let pd = self
             .problem_def
@@ -313,5 +317,16 @@ where
         let goal_node_idx = goal_reached.ok_or(PlanningError::NoSolutionFound)?;
 
         Ok(self.reconstruct_path(start_state, parent_map, goal_node_idx))
+    }
+}
+
+#[cfg(feature = "verif")]
+impl<S: State + Clone, SP: StateSpace<StateType = S>, G: Goal<S>> PRM<S, SP, G> {
+    /// Read-only snapshot of the roadmap: (state, adjacency list).
+    pub fn verif_roadmap(&self) -> Vec<(S, Vec<usize>)> {
+        self.roadmap
+            .iter()
+            .map(|n| (n.state.clone(), n.edges.clone()))
+            .collect()
     }
 }
